@@ -90,6 +90,17 @@ fn observe(res: std::thread::Result<Result<Option<Response>, trippy_core::Error>
     }
 }
 fn recv_real(rc: &RCfg, from: Option<IpAddr>, bytes: &[u8]) -> (String, Option<Response>) {
+    // about every third datagram is received with trace-level logging switched on (all field expressions of the logging macros are
+    // then evaluated), the others with logging off
+    // (decided by the datagram itself, so that a replay of the line behaves the same)
+    let n = bytes.iter().fold(bytes.len() as u64, |a, b| a.wrapping_mul(31).wrapping_add(u64::from(*b)));
+    crate::tracesub::set(n % 3 == 0);
+    let r = recv_real_inner(rc, from, bytes);
+    crate::tracesub::set(false);
+    r
+}
+
+fn recv_real_inner(rc: &RCfg, from: Option<IpAddr>, bytes: &[u8]) -> (String, Option<Response>) {
     observe(catch_unwind(AssertUnwindSafe(|| {
         sim::reset();
         let mut ch = Channel::<SimSocket>::connect(&rc.channel_config(84, 0, 33434))?;
@@ -881,6 +892,7 @@ fn twoqueued_case(rc: &RCfg, from: Option<IpAddr>, first: &[u8], second: &[u8], 
 }
 
 pub fn run(args: &Args, out: &mut Out) {
+    crate::tracesub::install();
     if let Some(path) = &args.replay {
         for l in crate::replay_inputs(path) {
             let t: Vec<&str> = l.split(' ').collect();
